@@ -11,7 +11,7 @@ from .. import terms as T
 from ..common import compare_with_reference, vn_paths, vn_ref
 from ..effects import Analyzer, Effects
 from ..model import AnchorMissing, is_self_attr, unparse
-from ..vn import cond_text
+from ..vn import VN, cond_text
 
 GM = "sigpy.alg.GradientMethod"
 PD = "sigpy.alg.PrimalDualHybridGradient"
@@ -161,10 +161,15 @@ def _mirror(run, upd, code):
             "self.gamma_dual": T.sym("self.gamma_primal", real=True)}
     def has(o, txt):
         return any(txt in T.show(c, 400) for c in o.conds)
-    pri = [o for o in code if o.status != "raise" and any(T.show(c, 300).startswith("and(pos(self.gamma_primal)") for c in o.conds)]
-    dua = [o for o in code if o.status != "raise" and any(T.show(c, 300).startswith("and(pos(self.gamma_dual)") or
-                                                          T.show(c, 300).startswith("and(zero(-1*self.gamma_primal), pos(self.gamma_dual))") or
-                                                          "pos(self.gamma_dual)" in T.show(c, 300) and "not(" not in T.show(c, 300)[:4] for c in o.conds) and o not in pri]
+    from ..vn import conjuncts
+    pv = VN(real={"self.gamma_primal", "self.gamma_dual"})
+    gp = pv.compare(ast.Gt(), T.sym("self.gamma_primal", real=True), T.const(0))
+    gd = pv.compare(ast.Gt(), T.sym("self.gamma_dual", real=True), T.const(0))
+
+    def holds(o, c):
+        return any(c == x for k in o.conds for x in conjuncts(k))
+    pri = [o for o in code if o.status != "raise" and holds(o, gp)]
+    dua = [o for o in code if o.status != "raise" and holds(o, gd) and o not in pri]
     if len(pri) != 1 or len(dua) != 1:
         run.bad("S3", "PrimalDualHybridGradient._update", upd.loc(), "expected exactly one primal- and one dual-acceleration path, found %d and %d" % (len(pri), len(dua)),
                 stmt="S3:paths")
